@@ -800,8 +800,10 @@ def regenerate_routes() -> dict:
 
 # generated module name -> harness module with a `regenerate()` (statement-level translators); dependencies between them
 PROG_MODULES = {"RingProg": "progtx", "RecordProg": "progtx_record", "HookProg": "progtx_hooks", "UpdaterProg": "progtx_updater", "ReducerProg": "progtx_reducer", "LayerProg": "progtx_layer",
-                "EncoderProg": "progtx_encoder", "SelectProg": "progtx_select", "ConfigProg": "progtx_config"}
-PROG_USES = {"RecordProg": ["RingProg"], "SelectProg": ["RingProg"], "ConfigProg": ["RecordProg", "RingProg"]}
+                "EncoderProg": "progtx_encoder", "SelectProg": "progtx_select", "ConfigProg": "progtx_config", "ConnProg": "progtx_conn",
+                "NeuronProg": "progtx_neuron"}
+PROG_USES = {"RecordProg": ["RingProg"], "SelectProg": ["RingProg"], "ConfigProg": ["RecordProg", "RingProg"],
+             "NeuronProg": ["NeuronDynamics", "NeuronAdaptation"]}
 
 
 def regenerate(mods: list[str] | None = None) -> dict:
